@@ -18,10 +18,18 @@ import traceback
 from . import common
 from .common import VERIF, COQ
 
-REGISTRY = {
-    # id: (module, [generated files it depends on])
-    "C06": ("p_c06", []),
-}
+def _discover():
+    """every harness/p_cNN.py is the check of property CNN; its GEN_DEPS (prefixes of translator status keys,
+    e.g. "Classes.v") name the generated files its proofs depend on"""
+    reg = {}
+    here = os.path.dirname(os.path.abspath(__file__))
+    for fn in sorted(os.listdir(here)):
+        if fn.startswith("p_c") and fn.endswith(".py"):
+            reg["C" + fn[3:-3].upper()] = (fn[:-3], None)
+    return reg
+
+
+REGISTRY = _discover()
 
 TRUSTED_COMMON = [
     "Coq 8.16.1 kernel + vm_compute (no native_compute)",
@@ -33,10 +41,17 @@ TRUSTED_COMMON = [
 
 
 def load_known():
-    p = os.path.join(VERIF, "KNOWN_FINDINGS.json")
-    if not os.path.exists(p):
-        return []
-    return json.load(open(p))["findings"]
+    """KNOWN_FINDINGS.json (+ known_findings.d/*.json, one file per property while it is being built):
+    open findings, each identified by its specific trigger.  Never written at run time."""
+    out = []
+    paths = [os.path.join(VERIF, "KNOWN_FINDINGS.json")]
+    d = os.path.join(VERIF, "known_findings.d")
+    if os.path.isdir(d):
+        paths += sorted(os.path.join(d, f) for f in os.listdir(d) if f.endswith(".json"))
+    for p in paths:
+        if os.path.exists(p):
+            out += json.load(open(p)).get("findings", [])
+    return out
 
 
 def setup():
@@ -63,10 +78,10 @@ def run_check(pid, tier, seed):
     # 1 ---- translator
     from translator import pep2coq
     gen_status = pep2coq.regenerate()
-    for g in gen_deps:
-        st = gen_status.get(g)
-        if st is not None and st is not True:
-            broken.append(dict(what="translator", file=g, error=str(st)))
+    gen_deps = list(getattr(mod, "GEN_DEPS", []))
+    for key, st in sorted(gen_status.items()):
+        if st is not True and any(key == g or key.startswith(g + ":") or key == g.split(".")[0] for g in gen_deps):
+            broken.append(dict(what="translator", item=key, error=str(st)))
 
     # 2 ---- proofs
     common.regenerate_makefile()
